@@ -182,7 +182,9 @@ def run(chk):
         # linearity and 2-D
         y = np.array([float(Fraction((i * 7) % 5 - 2, 2)) for i in range(n)])
         lin = f(2.0 * xf - 3.0 * y, tf)
-        if not np.allclose(lin, 2.0 * got - 3.0 * f(y, tf), rtol=1e-12, atol=1e-12):
+        hmin = float(h) if scalar else float(np.min(np.diff(tf)))
+        lin_tol = 1e-11 * (1.0 + float(np.max(np.abs(xf)))) / hmin ** (1 if fn == "vel" else 2)   # cancellation in the difference quotients
+        if not np.allclose(lin, 2.0 * got - 3.0 * f(y, tf), rtol=1e-9, atol=lin_tol):
             chk.fail("linear in the signal", inp, (2.0 * got - 3.0 * f(y, tf)).tolist(), lin.tolist())
         two = f(np.vstack([xf, y]), tf)
         if two.shape != (2, n) or not np.array_equal(two[0], got) or not np.array_equal(two[1], f(y, tf)):
